@@ -66,8 +66,11 @@ def expected_end_fields(node):
     if node.outcome == "succeeded":
         return dict(node.succ)
     e = node.exc
-    d = {"exception": class_path(type(e)), "reason": exc_text(e)}
-    d.update(node.exc_fields)
+    d = dict(node.exc_fields)
+    d.pop("action_status", None)
+    # the class path and the text are eliot's to state: an extractor cannot override them
+    d.update({"exception": class_path(type(e)),
+              "reason": node.reason if getattr(node, "reason", None) is not None else exc_text(e)})
     return d
 
 
